@@ -278,6 +278,14 @@ func gen(out *vc.Out, r *vc.Rand, thorough bool) {
 	for _, key := range catKeys {
 		for _, c := range cfgs {
 			for _, in := range inits(key, c.sh, "L1,2") {
+				if c.pe {
+					// one call alone, a persistent-tier failure at each of its steps (a failed reload of the
+					// list must fail the call, not be taken for an empty list)
+					for _, a := range lops {
+						k := &kase{variant: variantFlag, pe: c.pe, sh: c.sh, key: key, init: in, ops: []string{a}}
+						explore(out, k, 1, "p", limit, "list-single-pfault")
+					}
+				}
 				for i, a := range lops {
 					for j, b := range lops {
 						if j < i && !thorough {
@@ -285,7 +293,8 @@ func gen(out *vc.Out, r *vc.Rand, thorough bool) {
 						}
 						k := &kase{variant: variantFlag, pe: c.pe, sh: c.sh, key: key, init: in, ops: []string{a, b}}
 						explore(out, k, 0, "", limit, "list-pairs")
-						if c.pe && thorough {
+						persisted := key == catKeys[1] || key == catKeys[3]
+						if c.pe && (thorough || (persisted && i != j)) {
 							explore(out, k, 1, "p", limit, "list-pairs-pfault")
 						}
 					}
